@@ -59,8 +59,10 @@ TRUSTED = [
     "conversion of rule objects into descriptors (harness/props/c19.py), id()-based object numbering",
     "the scripted clock (harness/props/c19.py ScriptedClock) that stands for the `time` module inside "
     "comb_spec_searcher/comb_spec_searcher.py while expand_verified runs",
-    "copy.copy semantics (what a shallow copy shares) is modelled by hand (mode deep=false) and compared per case with "
-    "the `is`-identities observed on the implementation",
+    "what the copies made by expand_comb_class share with the original is modelled by hand: mode deep=true = "
+    "specification._detached_copy (the code since fix 58ed6bb; the mode the harness runs and compares, per case, with the "
+    "`is`-identities observed on the implementation), mode deep=false = plain copy.copy (the code before 58ed6bb; kept only "
+    "as the witness of C19_no_shared_state_refuted, no case runs it)",
 ]
 ASSUMPTIONS = [
     "termination of the loop is the documented contract of VerificationStrategy.pack ('the pack is assumed to produce a "
@@ -88,8 +90,8 @@ LEVEL_TEXT = (
     "any identity-independent property); C19_no_expandable_left (on return no rule is a verification rule offering a pack); "
     "C19_fresh_objects (no rule object of the result — plain, path, path member — is an object the original mentions) with "
     "C19_inner_objects_and_caches (inner original_rule objects and caches are new or, shallow copy only, those of the "
-    "original), C19_no_shared_state_refuted (the shallow copy of the code DOES share caches and inner objects: witness runs) "
-    "and C19_detached_copy_shares_nothing; C19_original_untouched (for every outcome, also failures: set_subrecs never "
+    "original), C19_no_shared_state_refuted (a shallow copy.copy - the code BEFORE fix 58ed6bb - does share caches and inner "
+    "objects: witness runs; historic, no case exercises it) and C19_detached_copy_shares_nothing (the code as it is); C19_original_untouched (for every outcome, also failures: set_subrecs never "
     "rebinds a rule of the original); C19_result_valid (same root, closed, one rule per class keyed by its class, rules "
     "bound to the result — enforced by the constructor for every answer); C19_nothing_to_expand (no round: the same "
     "specification is returned); C19_reverse_only_after_failure (reverse=True is used exactly in rounds whose reverse-free "
@@ -99,19 +101,21 @@ LEVEL_TEXT = (
 LEVEL_NOTE = (
     "Not proved: termination of the loop (documented contract of pack(); fuel in the model, call bound in the harness); that "
     "the inner search's answer is productive/genuine is C11/C04/C09's business and enters C19_same_enumeration as hypotheses "
-    "(re-decided per real result by the oracle); the inner search itself is replayed, not modelled. OPEN FINDING (known_findings: "
-    "expand-copies-share-caches-with-original): copy.copy is shallow, the expanded specification's rules share "
-    "terms_cache/objects_cache and inner original_rule objects with the original, so the original's observable behaviour "
-    "(raising vs answering, order of generated objects) depends on whether the expanded specification was used — "
-    "findings/c19_shared_caches.py, patch findings/c19_detached_copy.diff; the model follows the code as it is (deep=false) "
-    "and, per case, the patched behaviour (deep=true) when the implementation is observed to share nothing, so the check is "
-    "quiet on both trees. SECOND OPEN FINDING (retry-expands-empty-classes): expand_comb_class replaces the searcher's queue "
-    "AFTER seeding, losing the 'stop yielding' marks of empty classes; the retry (continue_expanding_verified=True) then "
-    "applies the pack's strategies to empty classes and the reverse of such a rule is false — the returned specification "
-    "holds e.g. 'words with prefix a = the word a' and cannot count (findings/c19_retry_expands_empty_classes.py, patch "
-    "findings/c19_queue_before_seeding.diff). It lies in the part of the run the model does not contain (the inner search: "
-    "its answer violates the genuineness hypothesis of C19_same_enumeration), is found by the oracle, and is keyed narrowly "
-    "(a failure of the result AND an empty class observed being expanded during a successful retry). "
+    "(re-decided per real result by the oracle); the inner search itself is replayed, not modelled. FIXED FINDING (known_findings: "
+    "expand-copies-share-caches-with-original, fix 58ed6bb): expand_comb_class used copy.copy, a shallow copy, so the expanded "
+    "specification's rules shared terms_cache/objects_cache and inner original_rule objects with the original and the "
+    "original's observable behaviour (raising vs answering, order of generated objects) depended on whether the expanded "
+    "specification was used (findings/c19_shared_caches.py, findings/c19_detached_copy.diff). /repo now seeds "
+    "specification._detached_copy; the model runs in mode deep=true on every case and the oracle REQUIRES that no wrapped "
+    "rule object and no cache of the result is an object of the original, so a return to shallow copies is reported "
+    "(model/implementation mismatch and failing input) whether or not it is observable through counts. SECOND FIXED FINDING "
+    "(retry-expands-empty-classes, fix efd250e): expand_comb_class replaced the searcher's queue AFTER seeding, losing the "
+    "'stop yielding' marks of empty classes; the retry (continue_expanding_verified=True) then applied the pack's strategies "
+    "to empty classes and the reverse of such a rule is false (findings/c19_retry_expands_empty_classes.py, "
+    "findings/c19_queue_before_seeding.diff); /repo now creates the queue before seeding. That defect lay in the part of the "
+    "run the model does not contain (the inner search: its answer violates the genuineness hypothesis of "
+    "C19_same_enumeration); the oracle still looks for it (a failure of the result AND an empty class observed being expanded "
+    "during a successful retry) and, the entry being `fixed`, reports it as a violation should it return. "
     "Trusted: Coq kernel, extraction, harness observation layer."
 )
 
@@ -554,7 +558,10 @@ def impl(case):
     res["facts"] = facts
     res["out"] = [status, rounds, final_map, orig_owner, res_owner, sharing]
     empties = sorted(cl.lab[c] for c in cl.cls if c.is_empty())
-    deep = int(new is not None and new is not spec0 and facts["shared_inner"] == 0 and facts["shared_caches"] == 0)
+    # the model is run in the mode of the code: detached copies (deep) since fix 58ed6bb.  It is NOT set from the sharing
+    # observed on this run any more: a regression to shallow copies must show as a model/implementation mismatch AND as an
+    # oracle failure.  (The model's shallow mode survives only for C19_no_shared_state_refuted.)
+    deep = int(new is not None and new is not spec0)
     res["model_in"] = [d0, model_rounds, empties, deep, reg.n0, FUEL]
     res["nrules_new"] = len(final_map)
     res["has_path0"] = any(_is_path(r) for r in values0)
@@ -711,7 +718,7 @@ def _oracle(case, res):
             return "class %d of the expanded specification does not pump (naive least fixed point over parent, children, shifts)" % f["not_pumping"][0]
         if f["new"]["counts"] != res["truth"]:
             return "the expanded specification counts %r, brute force gives %r" % (f["new"]["counts"], res["truth"])
-        if f["new_direct"]["counts"] != res["truth"] and not f.get("shared_caches"):
+        if f["new_direct"]["counts"] != res["truth"]:
             return "the expanded specification itself counts %r, brute force gives %r" % (
                 f["new_direct"]["counts"], res["truth"])
         if isinstance(before["counts"], list) and f["new"]["counts"] != before["counts"]:
@@ -724,6 +731,13 @@ def _oracle(case, res):
             return "a reverse rule was made by an expansion that did not allow reverse rules: %s" % f["bad_reverse"][:2]
         if res["nrounds"] and f["shared_top"]:
             return "the expanded specification shares rule objects with the original: %s" % f["shared_top"][:2]
+        # REQUIRED since fix 58ed6bb (_detached_copy): no wrapped rule object (EquivalenceRule/ReverseRule.original_rule,
+        # path member) and no terms_cache/objects_cache of the result is an object of the original.  Judged on the
+        # `is`-identities alone, whether or not the sharing happens to be observable through counts/objects on this case
+        if res["nrounds"] and (f["shared_inner"] or f["shared_caches"]):
+            return ("the expanded specification shares state with the original (shallow copies): %d wrapped rule object(s) "
+                    "and the caches of %d rule(s) of the result are objects of the original" % (
+                        f["shared_inner"], f["shared_caches"]))
         if 0 in res["out"][4]:
             return "a rule of the expanded specification is not bound to the expanded specification's rules"
         if res["nrounds"] == 0 and not f["same_object"] and res["nverified"] == 0:
@@ -742,11 +756,8 @@ def _oracle(case, res):
     if isinstance(before["samples"], list) and isinstance(after["samples"], list) and before["samples"] != after["samples"]:
         if before["objects"] == after["objects"]:
             return "the original specification samples differently after expand_verified (same random seed)"
-    # ---- last: the known aliasing through shared caches (order of generation, raising vs answering)
-    if after != before and st == 0 and res["nrounds"] and f.get("shared_caches"):
-        what = [k for k in ("counts", "objects", "samples") if after[k] != before[k]]
-        return ("SHARED-CACHES: the original specification behaves differently once the expanded specification has "
-                "been used (%s): its rules share terms_cache/objects_cache with the copies" % ", ".join(what))
+    # (the aliasing through shared caches - fixed finding 58ed6bb - is reported above as shared state; what remains
+    # here is any other difference)
     if after != before:
         what = [k for k in ("counts", "objects", "samples") if after[k] != before[k]]
         return "the original specification behaves differently after expand_verified (%s)" % ", ".join(what)
@@ -754,8 +765,9 @@ def _oracle(case, res):
 
 
 def finding_match(case, why):
-    if why and why.startswith("SHARED-CACHES:"):
-        return KNOWN_SHALLOW
+    # both C19 findings are `fixed` in known_findings.json (58ed6bb, efd250e): core masks only `open` entries, so nothing
+    # is masked; the string below only names the historic finding a returning failure would belong to.  Shared state
+    # (KNOWN_SHALLOW) is an ordinary oracle failure now and matches nothing.
     if why and why.startswith("RETRY-EXPANDS-EMPTY-CLASSES:"):
         return KNOWN_EMPTY
     return None
